@@ -1244,7 +1244,7 @@ class ContainerEngine:
                             op["dst"] = "/" + dgen.key() + "_cp"
                 if op["op"] == "copy" and g.random() < 0.3:
                     op["without_meta"] = True
-                if op["op"] == "copy" and g.random() < 0.06 and op.get("how") != "group":
+                if op["op"] == "copy" and g.random() < (0.2 if prop == "C06" else 0.1) and op.get("how") != "group":
                     op["bad_kw"] = g.choice(["shallow", "expand_refs", "recursive"])
                 elif op["op"] == "copy" and g.random() < 0.15:
                     op["srcobj"] = True
